@@ -13,7 +13,7 @@ import os
 import struct
 from typing import Any, Dict, Iterator, List, Tuple
 
-from checks.codec_common import (make_unit_fn, minimize_keys, other_backend, prog_case, replay_with, tagkey, backend)
+from checks.codec_common import (make_contextualize, make_unit_fn, minimize_keys, other_backend, prog_case, replay_with, tagkey, backend)
 from mcx.core import Ctx, Part, digest, pmap
 from odxmodel import harness, refodx, space
 from odxmodel.harness import jval, show
@@ -55,7 +55,7 @@ def loose_equal(want: Any, got: Any) -> bool:
     return type(want) is type(got) and want == got
 
 
-def perturbations(values: Dict[str, Any], params: List[Dict[str, Any]]) -> Iterator[Tuple[str, Dict[str, Any]]]:
+def perturbations(values: Dict[str, Any], params: List[Dict[str, Any]], request: Any = None) -> Iterator[Tuple[str, Dict[str, Any]]]:
     """single-fault neighbours of a valid assignment (deviation bound 1)"""
     for k in values:
         d = dict(values)
@@ -105,6 +105,13 @@ def perturbations(values: Dict[str, Any], params: List[Dict[str, Any]]) -> Itera
             # (RESERVED is not in the list: decode reports its bits, so re-encoding a decoded dictionary must stay possible)
             yield "set-constant", dict(values, **{p["name"]: 99})
             yield "set-constant-falsy", dict(values, **{p["name"]: 0})
+        if p["t"] == "MATCHING-REQUEST-PARAM" and p["name"] not in values and request is not None and len(request) >= p["rq_byte"] + p["len"]:
+            echo = request[p["rq_byte"]:p["rq_byte"] + p["len"]]
+            # the value the decoder reports for the echoed bytes must be accepted, its byte-swapped reading must not be
+            # mistaken for it (the round trip decides)
+            yield "set-echo-as-decoded", dict(values, **{p["name"]: int.from_bytes(echo, "little")})
+            if int.from_bytes(echo, "big") != int.from_bytes(echo, "little"):
+                yield "set-echo-byte-swapped", dict(values, **{p["name"]: int.from_bytes(echo, "big")})
         if p["t"] == "LENGTH-KEY" and p["name"] not in values:
             yield "conflicting-length-key", dict(values, **{p["name"]: 64})
         if p["t"] == "TABLE-KEY" and p["name"] not in values:
@@ -120,7 +127,7 @@ def assignments(prog: Dict[str, Any]) -> Iterator[Tuple[str, Dict[str, Any]]]:
             yield "valid", a                     # (of all of them for single-template programs)
             if ai >= 2 and not single:
                 continue
-            for kind, d in perturbations(a, prog["params"]):
+            for kind, d in perturbations(a, prog["params"], prog.get("request")):
                 key = repr(sorted(d.items(), key=lambda kv: kv[0]))
                 if key not in seen:
                     seen.add(key)
@@ -200,6 +207,9 @@ def units_for(ctx: Ctx) -> List[Tuple[str, List[Dict[str, Any]]]]:
     return u
 
 
+contextualize = make_contextualize(PROPERTY, lambda quick: units_for(__import__("types").SimpleNamespace(quick=quick)))
+
+
 def run(ctx: Ctx) -> None:
     units = units_for(ctx)
     ctx.bounds = {"layer_A": "all values of [-2^n, 2^(n+1)] for n <= %d, boundary sets up to 64 bit, wrong types" % (8 if ctx.quick else 12),
@@ -208,7 +218,7 @@ def run(ctx: Ctx) -> None:
     ctx.rule = "program x (valid or invalid) value assignment; non-trivial = distinct (construct, perturbation kind, outcome class)"
     ctx.assumptions = ["out-of-mask values of BIT-MASK types and integer-keyed MUX values are outside the envelope",
                        "numeric equality is used for 'decodes back to the requested values' (True == 1, 3.0 == 3)"]
-    pmap(ctx, unit_fn, units)
+    pmap(ctx, unit_fn, units, isolate=True)
     ctx.counts["traces_validated_against_impl"] = ctx.counts.get("evaluations", 0)
     ctx.sample({"program": "i_I2C_h_8_0_a", "values": {"v": 200}, "outcome": "EncodeError"})
     ctx.guard("accepted > 1000", ctx.counts.get("accepted", 0) > 1000)
